@@ -1332,37 +1332,64 @@ def path_facts(path_prefix, fn, d, linit):
 
 
 def rule_at(rep, inst):
+    """at(i) summarised symbolically (sa/checkfn.py): every path through the helpers it calls ends in a throw of std::out_of_range whose conditions
+    entail i >= size(), or in a return whose conditions entail i < size()"""
+    from .. import checkfn
     d = inst.d
     R = "C03.at"
     for fn in inst.find("at", "xdynamic_bitset_base"):
         kind = [k for c, k, f in inst.fns if f is fn][0]
         lab = label("xdynamic_bitset_base", kind, fn, inst)
-        linit, _ = locals_init(fn)
-        idx = ir.params(fn)[0].get("name")
-        paths = flow.function_paths(fn, with_ctor_inits=False)
+        # what size() returns, as one observable
+        sz = None
+        for g in inst.find("size", "xdynamic_bitset_base"):
+            try:
+                o_ = checkfn.summarise(d, g, [])[0]
+                if len(o_) == 1 and o_[0][1][0] == "ret" and o_[0][1][1] is not None and len(o_[0][1][1]) == 1:
+                    sz = o_[0][1][1]
+            except checkfn.Undecided:
+                pass
+        if sz is None:
+            sz = Lin({"m_size": 1})
+        I = Lin({"i": 1})
+        try:
+            outs, sm = checkfn.summarise(d, fn, [I])
+        except checkfn.Undecided as e:
+            rep.inconclusive(R, lab, "throws exactly when i >= size()", where=d.where(fn), detail=str(e))
+            continue
+        # the member m_size read directly and size() are the same quantity
+        def canon_(l_):
+            out = Lin()
+            for k_, v_ in l_.items():
+                key = list(sz)[0] if k_ in ("m_size", "this->m_size", "size()") else k_
+                out = out + Lin({key: v_})
+            return out
+        nonneg = ("i",) + tuple(sz)
         bad = None
-        for path in paths:
-            facts, _, pn = path_facts(path, fn, d, linit)
-            nonneg = ("m_size",) + tuple("p:" + p for p in pn)
-            inb = linear.entails(facts, Lin({"m_size": 1, "p:" + idx: -1, "": -1}), nonneg)      # i < size
-            oob = linear.entails(facts, Lin({"p:" + idx: 1, "m_size": -1}), nonneg)               # i >= size
-            end = path[-1]
-            if end[0] == "return":
-                if not inb:
-                    bad = (end[1], "a path returns an element without having established %s < size()" % idx)
-            elif end[0] == "escape":
-                thr = end[1]
-                ty = ir.qtype(ir.ekids(thr)[0]) if thr is not None and thr.get("kind") == "CXXThrowExpr" and ir.ekids(thr) else "?"
-                if not oob:
-                    bad = (thr or fn, "a path throws although %s >= size() is not established" % idx)
-                elif "out_of_range" not in ty:
-                    bad = (thr, "throws %s, expected std::out_of_range" % ty)
+        nthrow = nret = 0
+        for facts, end in outs:
+            facts = [canon_(f_) for f_ in facts]
+            if linear.entails(facts, Lin({"": -1}), nonneg):
+                continue
+            if end[0] == "throw":
+                nthrow += 1
+                if "out_of_range" not in end[1]:
+                    bad = "throws %s, expected std::out_of_range" % end[1]
+                elif not linear.entails(facts, I - sz, nonneg):
+                    bad = "a path throws although i >= size() is not established"
+            elif end[0] == "noreturn":
+                bad = "a path ends in %s() instead of throwing std::out_of_range" % end[1]
             else:
-                bad = (fn, "a path falls off the end")
+                nret += 1
+                if not linear.entails(facts, sz - I - Lin({"": 1}), nonneg):
+                    bad = "a path returns an element without having established i < size()"
+        if not bad and not nthrow:
+            bad = "never throws"
         if bad:
-            rep.violates(R, lab, "throws exactly when i >= size()", where=d.where(bad[0]), detail=bad[1])
+            rep.violates(R, lab, "throws exactly when i >= size()", where=d.where(fn), detail=bad)
         else:
-            rep.holds(R, lab, "throws exactly when i >= size()", where=d.where(fn), detail="%d paths" % len(paths))
+            rep.holds(R, lab, "throws exactly when i >= size()", where=d.where(fn), detail="%d throwing and %d returning paths%s" % (
+                nthrow, nret, (", through %s" % ", ".join(sorted(set(sm.followed)))) if sm.followed else ""))
 
 
 def rule_empty(rep, inst):
